@@ -88,6 +88,8 @@ structure Config (σ τ ε : Type) where
   ctxs : List (DFA Nat)
   /-- rule set name ↦ entry state of the simplified DFA -/
   entries : List (String × Nat)
+  /-- the states whose code the generator inlined at their use sites (sorted; any policy) -/
+  inl : List Nat
   actions : Nat → Action σ τ ε
   width : Nat → Nat
   /-- chars of the `&str` input (`none`: constructed from an iterator, `input = ""`) -/
@@ -162,7 +164,7 @@ inductive StepOut (σ τ ε : Type) where
 variable {σ τ ε : Type}
 
 def switchNum (cfg : Config σ τ ε) (name : String) : Nat :=
-  ((switchTable cfg.dfa cfg.entries).find? (·.1 = name)).elim 0 (·.2)
+  ((switchTable cfg.inl cfg.entries).find? (·.1 = name)).elim 0 (·.2)
 
 def mkView (cfg : Config σ τ ε) (action : Nat) (st : LState σ) : View σ :=
   { action := action
@@ -257,7 +259,7 @@ def scan (cfg : Config σ τ ε) (nextState : Nat → Option Nat) :
       if s = 0 then .fin st else failCode d st
     match d.eoi with
     | some (.accept accs) => testRightCtxs cfg accs st dflt
-    | some (.goto t) => .goto { st with state := renumber (inlinedStates cfg.dfa) t }
+    | some (.goto t) => .goto { st with state := renumber cfg.inl t }
     | none => dflt ()
   | s, c :: rest, st =>
     let d := cfg.dfa.st s
@@ -266,9 +268,9 @@ def scan (cfg : Config σ τ ε) (nextState : Nat → Option Nat) :
     let st := { st with iter := rest, curEnd := st.curEnd.advance cfg.width c }
     let fail : Unit → Outcome σ := fun _ => failCode d st
     let goto (t : Nat) : Outcome σ :=
-      if inlinedAt cfg.dfa t then scan cfg nextState t rest st
+      if inlinedAt cfg.inl t then scan cfg nextState t rest st
       else
-        let n := renumber (inlinedStates cfg.dfa) t
+        let n := renumber cfg.inl t
         match nextState n with
         | some t' => scan cfg nextState t' rest { st with state := n }
         | none => .goto { st with state := n }
@@ -299,7 +301,7 @@ def nextLoop (cfg : Config σ τ ε) : Nat → LState σ → Option (Option (Ite
   | fuel + 1, st =>
     if st.done then some (none, st)
     else
-      let arms := stateArms cfg.dfa
+      let arms := stateArms cfg.dfa cfg.inl
       match dispatch arms st.state with
       | none => none
       | some s =>
